@@ -118,7 +118,7 @@ class C04(Sim):
     RULE = ("one run = a pool of 1-3 meshes and one simulated file system; saver / loader / cross-reader / cross-writer / querier / config clients under a "
             "seeded scheduler; distinct = distinct (mesh kinds, (operation, format, switches) sequence); non-trivial = >= 1 file saved or planted and >= 1 load or cross-read judged")
     FAULT_KINDS = ["lexical", "config_flip", "reject"]
-    PROBES = ["dialect_relative_indices", "dialect_polylines", "dialect_count_same_line", "dialect_counts_on_header_line", "dialect_face_style", "dialect_vextra", "dialect_ref", "dialect_version", "dialect_nedges", "dialect_normals", "dialect_header", "edge_unmarked", "edited_then_saved", "wild_coordinates", "polygon_to_triangle_format", "attributes_roundtrip", "query_before_save", "resave_after_load", "stl", "hex", "export_edges_off",
+    PROBES = ["dialect_interleave", "dialect_relative_indices", "dialect_polylines", "dialect_count_same_line", "dialect_counts_on_header_line", "dialect_face_style", "dialect_vextra", "dialect_ref", "dialect_version", "dialect_nedges", "dialect_normals", "dialect_header", "edge_unmarked", "edited_then_saved", "wild_coordinates", "polygon_to_triangle_format", "attributes_roundtrip", "query_before_save", "resave_after_load", "stl", "hex", "export_edges_off",
               "crlf", "comments", "exp_floats", "no_final_newline", "cross_read", "cross_write_load", "save_load", "overwrite", "faceless_stl", "ignore_elements", "raw_load"]
     QUICK_RUNS = 2500
     THOROUGH_RUNS = 250000
@@ -349,6 +349,8 @@ class C04(Sim):
                 dia["relative_indices"] = True            # negative indices count backwards from the last vertex read
             if r.chance(0.3):
                 dia["polylines"] = True                   # consecutive edges chained into one `l a b c ...` element
+            if r.chance(0.3):
+                dia["interleave"] = True                  # each vertex written just before the first face that uses it
         elif fmt == "mesh":
             if r.chance(0.4):
                 dia["ref"] = r.randint(1, 9)
@@ -508,7 +510,7 @@ class C04(Sim):
         if op == "query":
             m = self._mesh(ev["m"])
             self.probes["query_before_save"] += 1
-            if ev["which"] == "border" and hasattr(m, "boundary_vertices"):
+            if ev["which"] == "border" and type(m).__name__ in ("SurfaceMesh", "VolumeMesh"):  # (no hasattr: it would evaluate the property)
                 o = call(lambda: (m.boundary_vertices, m.interior_vertices))
             elif ev["which"] == "adjacency" and hasattr(m, "cells"):
                 o = call(lambda: m.connectivity.cell_to_cell(0))
